@@ -49,7 +49,11 @@ Fixpoint no_day_between (s : ssets) (d : Z) (n : nat) : bool :=
   match n with O => true | S k => negb (day_matches s d) && no_day_between s (d + 1) k end.
 
 (* (rd, rm) is the least matching minute strictly after (ld, lm) *)
+(* Matching days of a satisfiable schedule are at most 8 years apart (29 February across a common century year); a claimed
+   result further away than 100000 days (or the harness's sentinel for `None`) is refused outright, so that the day-by-day
+   walk below is never asked to build an astronomically long list of days. *)
 Definition is_least_match (s : ssets) (ld lm rd rm : Z) : bool :=
+  if (rd <? ld) || (100000 <? rd - ld) || (rm <? 0) || (1439 <? rm) then false else
   day_matches s rd && minute_matches s rm &&
   (if rd =? ld then (lm <? rm) && negb (any_minute s (lm + 1) (rm - 1))
    else (ld <? rd)
